@@ -105,7 +105,7 @@ PROPS["C04"] = {
     "level": "exploration",
     "plan": zv_plan(["", "gvariant,option-as-array"], FEATS4, ("release", "asan", "miri")),
     "rule": ("hostile inputs (1-2 stacked structure-aware or byte-level mutations of valid D-Bus/GVariant encodings, random bytes, "
-             "hand-made vectors: huge length prefixes, 5000-deep variant chains, 255-byte signatures, maybe signatures in D-Bus "
+             "hand-made vectors: huge length prefixes, variant chains up to 2,000,000 levels deep (6 MB; 100,000 under Miri), 255-byte signatures, maybe signatures in D-Bus "
              "data, out-of-range/backward GVariant offsets) decoded as dynamic and typed targets in every format of the feature "
              "build, under catch_unwind + shard journal (process death) + counting-allocator bound 512*(input+sig)+1MiB; every "
              "decoded value is re-encoded; distinct = distinct (signature, format, input kind)"),
